@@ -140,4 +140,17 @@ theorem sizeFrom_covers : ∀ (l : List Extent) (acc r : Int), sizeFrom acc l = 
   | (some true, none, _) :: _, _, _, h, _, _, _ => by simp [sizeFrom] at h
   | (some true, some _, none) :: _, _, _, h, _, _, _ => by simp [sizeFrom] at h
 
+theorem C01_size_covers_present_fields_aux (env : Env) (fs : List Field) (r : Int)
+    (h : eval env (synthSize fs) = some (.int r)) :
+    0 ≤ r ∧ ∀ s z : Int, (some true, some s, some z) ∈ extents env fs → s + z ≤ r := by
+  rw [eval_synthSize] at h
+  cases hs : ViewSpec.size (extents env fs) with
+  | none => rw [hs] at h; cases h
+  | some r' =>
+    rw [hs] at h
+    have hr : r' = r := by simpa using h
+    subst hr
+    unfold ViewSpec.size at hs
+    exact ⟨sizeFrom_ge _ _ _ hs, sizeFrom_covers _ _ _ hs⟩
+
 end Emboss.View
